@@ -481,7 +481,7 @@ def path_terms(model: Optional[Model], fn: FuncInfo, inline: Optional[Set[str]] 
 
 def local_terms(model: Optional[Model], fn: FuncInfo, inline: Optional[Set[str]] = None) -> Dict[str, Term]:
     """Normal forms of the single-assignment locals of fn that are plain formulas (others are skipped)."""
-    counts: Dict[str, int] = {}
+    counts: Dict[str, int] = {p: 1 for p in fn.params}     # a re-assigned parameter is not single-assignment
     for n in walk_no_nested(fn.node):
         if isinstance(n, (ast.Assign, ast.AnnAssign, ast.AugAssign)):
             for t in (n.targets if isinstance(n, ast.Assign) else [n.target]):
